@@ -38,4 +38,122 @@ pub proof fn lemma_prefix_apply_push(c1: Seq<i8>, c2: Seq<i8>, l: int, v: int, v
     lemma_prefix_apply_frame(c1, c2, l, v);
 }
 
+
+// ---------------------------------------------------------------- length of the 64-bit chain (make_addition_chain)
+
+/// opcodes needed from an odd multiplier below 2^b: one if b <= 3, else two per 4 bits plus the last one
+pub open spec fn chain_t(b: int) -> int { if b <= 3 { 1 } else { 2 * (b / 4) + 1 } }
+
+/// the potential carried by the loop: with l opcodes emitted and kk < 2^gb left,
+///  - kk odd: l + chain_t(gb) <= 33
+///  - kk even, nothing emitted yet (k itself is even)
+///  - kk even after an odd opcode: kk is a multiple of 8 and l + 1 + chain_t(gb - 3) <= 33,
+///    or kk = 2^(gb-1) (carry out of the top bit: an even opcode and the final one remain)
+pub open spec fn chain_pot(l: int, kk: int, gb: nat) -> bool {
+    if kk % 2 == 1 { l + chain_t(gb as int) <= 33 }
+    else {
+        ||| l == 0
+        ||| (kk % 8 == 0 && gb >= 3 && l + 1 + chain_t(gb as int - 3) <= 33)
+        ||| (gb >= 4 && kk == pow2((gb - 1) as nat) as int && l + 2 <= 33)
+    }
+}
+
+pub proof fn lemma_chain_t_mono(a: int, b: int)
+    requires a <= b
+    ensures chain_t(a) <= chain_t(b), chain_t(a) >= 1
+{
+    if a > 3 { vstd::arithmetic::div_mod::lemma_div_is_ordered(a, b, 4); }
+    if b > 3 && a <= 3 { vstd::arithmetic::div_mod::lemma_div_is_ordered(4, b, 4); }
+}
+
+/// the potential bounds the number of opcodes emitted so far
+pub proof fn lemma_chain_pot_bound(l: int, kk: int, gb: nat)
+    requires chain_pot(l, kk, gb), l >= 0
+    ensures l <= 32
+{
+    lemma_chain_t_mono(gb as int, gb as int);
+    lemma_chain_t_mono(gb as int - 3, gb as int - 3);
+}
+
+/// even step: kk = m 2^tz, m odd; the odd multiplier m < 2^(gb - tz) keeps the potential with one more opcode
+pub proof fn lemma_chain_pot_even(l: int, kk: int, gb: nat, tz: nat)
+    requires
+        kk >= 1, kk % 2 == 0, kk < pow2(gb) as int, gb <= 64, chain_pot(l, kk, gb), l >= 0,
+        tz >= 1, kk % (pow2(tz) as int) == 0, (kk / (pow2(tz) as int)) % 2 == 1,
+    ensures
+        tz < gb,
+        kk / (pow2(tz) as int) < pow2((gb - tz) as nat) as int,
+        chain_pot(l + 1, kk / (pow2(tz) as int), (gb - tz) as nat),
+{
+    let pt = pow2(tz) as int;
+    lemma_pow2_pos(tz);
+    vstd::arithmetic::div_mod::lemma_fundamental_div_mod(kk, pt);
+    let m = kk / pt;
+    assert(kk == pt * m);
+    assert(m >= 1);
+    assert(pt <= kk) by (nonlinear_arith) requires kk == pt * m, m >= 1, pt >= 1;
+    if tz >= gb { if tz > gb { lemma_pow2_strictly_increases(gb, tz); } assert(false); }
+    lemma_pow2_adds(tz, (gb - tz) as nat);
+    let pr = pow2((gb - tz) as nat) as int;
+    assert(m < pr) by (nonlinear_arith) requires pt * m < pt * pr, pt >= 1;
+    let g2 = gb as int - tz as int;
+    if l == 0 {
+        lemma_chain_t_mono(g2, 63);
+        assert(chain_t(63) == 31);
+    } else if kk % 8 == 0 && gb >= 3 && l + 1 + chain_t(gb as int - 3) <= 33 {
+        if tz < 3 {
+            lemma2_to64();
+            let a = m / 2;
+            assert(m == 2 * a + 1);
+            if tz == 1 { assert(pt == 2); assert(kk == 4 * a + 2) by (nonlinear_arith) requires kk == pt * m, pt == 2, m == 2 * a + 1; }
+            else { assert(pt == 4); assert(kk == 8 * a + 4) by (nonlinear_arith) requires kk == pt * m, pt == 4, m == 2 * a + 1; }
+            assert(false);
+        }
+        lemma_chain_t_mono(g2, gb as int - 3);
+    } else {
+        // kk = 2^(gb-1) = 2^tz m, m odd: tz = gb - 1 and m = 1
+        let j = (gb - 1) as nat;
+        if tz < j {
+            lemma_pow2_adds(tz, (j - tz) as nat);
+            lemma_pow2_pos((j - tz) as nat);
+            assert(m == pow2((j - tz) as nat) as int) by (nonlinear_arith) requires pt * m == pt * (pow2((j - tz) as nat) as int), pt >= 1;
+            lemma_pow2_unfold((j - tz) as nat);
+            let h = pow2((j - tz - 1) as nat) as int;
+            assert(m == 2 * h);
+            assert(m % 2 == 0) by (nonlinear_arith) requires m == 2 * h;
+            assert(false);
+        }
+        assert(tz == j);
+        assert(g2 == 1);
+        assert(chain_t(1) == 1);
+    }
+}
+
+/// odd step (kk > 7): what both encodings need
+pub proof fn lemma_chain_pot_odd(l: int, kk: int, gb: nat)
+    requires kk >= 9, kk % 2 == 1, kk < pow2(gb) as int, gb <= 64, chain_pot(l, kk, gb), l >= 0
+    ensures gb >= 4, l + 2 + chain_t(gb as int - 4) <= 33, l + 3 <= 33
+{
+    lemma2_to64();
+    if gb < 4 { if gb < 3 { lemma_pow2_strictly_increases(gb, 3); } assert(false); }
+    if gb as int - 4 > 3 {
+        vstd::arithmetic::div_mod::lemma_div_plus_one(gb as int - 4, 4);
+    }
+}
+
+/// negative encoding: (kk + rop) / 2 is below 2^(gb-1), or kk + rop = 2^gb exactly (carry out of the top bit)
+pub proof fn lemma_chain_carry(kk: int, rop: int, gb: nat)
+    requires kk >= 9, kk < pow2(gb) as int, gb >= 4, 1 <= rop <= 8, (kk + rop) % 16 == 0
+    ensures kk + rop < pow2(gb) as int || kk + rop == pow2(gb) as int
+{
+    lemma_pow2_adds(4, (gb - 4) as nat);
+    lemma2_to64();
+    let q = pow2((gb - 4) as nat) as int;
+    assert(pow2(gb) as int == 16 * q);
+    vstd::arithmetic::div_mod::lemma_fundamental_div_mod(kk + rop, 16);
+    let m = (kk + rop) / 16;
+    assert(kk + rop == 16 * m);
+    if kk + rop > 16 * q { assert(m >= q + 1); assert(false); }
+}
+
 } // verus!
